@@ -170,7 +170,10 @@ P = {
  "C16": ("Dsl", "Theorems (Props/C16.v; Dsl/Doc, DocP): in the compiler model, entry (a,b) of the travel matrix becomes the directed time "
          "a->b (C16_direction); jobs, operation order, machines and durations equal the document's job table (C16_jobs_as_written); "
          "numbers of machines/AGVs, standalone buffers and the early-transport switch are the document's with the documented "
-         "defaults (C16_shape_as_written). The rest of 'the instance is what the document describes / malformed documents are rejected' is "
+         "defaults (C16_shape_as_written); every machine has the pre-/post-buffer specification given for it (or the unbounded flex default), a one-slot "
+         "internal buffer, the setup matrix written for it and exactly the outages naming it or all machines (C16_machines_as_written), every AGV a one-slot "
+         "buffer and the transport outages (C16_agvs_as_written), every operation the tool listed at its position (C16_tools_as_written), and the setup "
+         "matrix is compiled row = from-tool, column = to-tool (C16_setup_direction). The rest of 'the instance is what the document describes / malformed documents are rejected' is "
          "decided by correspondence: the extracted compiler model runs on an independently tokenised document and must equal "
          "Compiler.compile (instance, initial state, labels); direct readings of the document (travel table, ids) and 15 kinds of "
          "malformed variants (must raise a jobshoplab error) run on every document. Known finding: job labels are ignored."),
